@@ -650,6 +650,41 @@ func runC09() {
 		}
 	}
 
+	// ---- (5) "running it again on an equal environment yields an equal result" also on ONE reused vm.VM, whatever the
+	//      earlier runs allocated in total (15 runs of ~120 000 elements each: more than the default budget together)
+	{
+		env := baseEnv()
+		for _, src := range []string{"len((I - I)..(I - I + 120000)) + len(filter([I, I + 1], {# > 0}))", "len(map(1..(I - I + 90000), {#})) + len([I, S, nil])"} {
+			p, err := expr.Compile(src, expr.Env(env))
+			if err != nil {
+				rep.fail(Failure{Key: "C09-run-nondeterministic", What: "the reused-VM program does not compile", Input: src, Got: err.Error()})
+				continue
+			}
+			machine := &vm.VM{}
+			first := ""
+			for k := 0; k < 15; k++ {
+				rep.Evaluations++
+				rep.hist("reused-VM repeat run")
+				out, rerr := func() (o interface{}, e error) {
+					defer func() {
+						if r := recover(); r != nil {
+							e = fmt.Errorf("panic: %v", r)
+						}
+					}()
+					return machine.Run(p, env)
+				}()
+				got := fmt.Sprintf("%v / %v", out, rerr)
+				if k == 0 {
+					first = got
+				} else if got != first {
+					rep.fail(Failure{Key: "C09-run-nondeterministic", What: fmt.Sprintf("run %d of the same program on an equal environment (one reused vm.VM) differs from run 1", k+1),
+						Input: map[string]interface{}{"src": src, "reused_vm_run": k + 1}, Want: first, Got: clip(got), Replay: `{"what": "reused-vm-repeat"}`})
+					break
+				}
+			}
+		}
+	}
+
 	// ---- (1b) the fresh processes
 	for k, ch := range children {
 		err := ch.cmd.Wait()
